@@ -184,7 +184,9 @@ class Ctx:
 
     def qe(self, f, ms=30000):
         try:
-            g = z3.TryFor(z3.Tactic('qe'), ms)(f).as_expr()
+            # qe-light first (destructive equality resolution: a bound loop variable that an element equation defines is substituted away - the
+            # common case, milliseconds); the full procedure runs on whatever quantifier is left.  Both are equivalence-preserving.
+            g = z3.TryFor(z3.Then(z3.Tactic('qe-light'), z3.Tactic('qe')), ms)(f).as_expr()
             return z3.simplify(g)
         except z3.Z3Exception as e:
             raise Unsupported('quantifier elimination failed or timed out: %s' % str(e)[:80])
@@ -462,6 +464,27 @@ def anticommute_count(ea, eb):
                 continue
             terms.append(z3.If(z3.And(g1, g2, eq(k1, k2), anti(v1, v2)), 1, 0))
     return z3.Sum(terms) if terms else z3.IntVal(0)
+
+
+def xor_all(conds):
+    """parity of the number of true conditions, as a balanced xor tree (no integer sum: the parity of a sum of 0/1 terms is what the SMT core is worst at)"""
+    cs = list(conds)
+    if not cs:
+        return FALSE
+    while len(cs) > 1:
+        cs = [z3.Xor(cs[i], cs[i + 1]) if i + 1 < len(cs) else cs[i] for i in range(0, len(cs), 2)]
+    return cs[0]
+
+
+def anticommute_odd(ea, eb):
+    """two operators (lists of effective entries, keys pairwise distinct within each list) anticommute: they anticommute on an odd number of qubits"""
+    conds = []
+    for g1, k1, v1 in ea:
+        for g2, k2, v2 in eb:
+            if len(k1.items) != len(k2.items):
+                continue
+            conds.append(z3.And(g1, g2, eq(k1, k2), anti(v1, v2)))
+    return xor_all(conds)
 
 
 def concretize_map(m, subst):
